@@ -18,15 +18,18 @@ META = {
         "affine-window evaluation with a finite case split on the lengths involved (R-03.5, R-03.6): for len(D) = 0..8 and "
         "len(D) >= 9 every feasible loop-exit path leaves tail = last TAIL_SIZE bytes of old_tail ++ D, the loop body never "
         "writes the tail, and for tail_len = 0..4 the tail-fill prologue appends min(len, TAIL_SIZE - tail_len) bytes, "
-        "stores the new tail_len and hands exactly the remaining bytes to the window loop.  Together with C01 R-01.3 (the "
-        "loop is seeded from tail[0..4] and shifts its window by one byte per iteration) this is the one-step case of "
-        "chunking independence; the induction over histories is a paper argument, not machine-checked."
+        "stores the new tail_len and hands exactly the remaining bytes to the window loop.  The loop body is a step function of "
+        "(carried state, byte): R-03.8 (the six salted increments and checksum.update(cur, prev) per window, window seeded "
+        "from tail[0..4] and shifted by one byte per iteration), R-03.9 (the 1- and 3-byte checksum recurrences read only "
+        "the carried checksum and their operands) and R-03.10 (inside update() the checksum is mutated only through "
+        "InnerChecksum::update and the buckets only through increment -- no per-call re-seeding or bulk update).  This is the "
+        "one-step case of chunking independence; the induction over histories is a paper argument, not machine-checked."
     ),
     "trusted_base": ["rustc nightly front end (types, Freeze query, derive expansion)", "Rust aliasing rules: no mutation through & without UnsafeCell or raw-pointer writes"],
     "assumptions": [],
-    "not_decided": ["the induction from one update() call to arbitrary histories (paper argument)", "bucket/checksum state equality across splits beyond the tail hand-over"],
+    "not_decided": ["the induction from one update() call to arbitrary histories (paper argument)"],
 }
-TECHNIQUE = "type-level facts (receiver, Freeze, derived Clone), must-pass-through path rule, compile-pass/compile-fail witness"
+TECHNIQUE = "type-level facts (receiver, Freeze, derived Clone), must-pass-through path rule, affine-window evaluation on a finite length case split, who-may-mutate rule on the carried state, compile-pass/compile-fail witness"
 
 
 def run(ctx, FS):
@@ -40,6 +43,7 @@ def run(ctx, FS):
         # piece length (or the room left below MAX_LEN), and the iterated slice is the counted one (shared with C11)
         from . import c11
         c11.guards(ctx, F, "R-03.7")
+        step_state(ctx, F)
         wrappers(ctx, F)
     witness.finalize_shared(ctx, "R-03.1")
 
@@ -209,6 +213,11 @@ def tail(ctx, F):
 
 SLICE_LEN = "core::slice::<impl [T]>::len"
 ITER_ADAPTERS = ("slice::<impl [T]>::iter", "Iterator::copied", "Iterator::cloned", "IntoIterator::into_iter")
+
+
+def _mut_ref_to(raw, target):
+    """does the raw (un-normalised) expression contain `&mut P` with P inside `target` (normalisation erases mutability)"""
+    return bool(find_all(raw, lambda x: x[0] == "ref" and len(x) == 3 and x[1] is True and find_all(n(x[2]), lambda y: y == target)))
 
 
 def _iter_source(e):
@@ -432,7 +441,7 @@ def _tail_ops(p, start_index, D, TAIL, T, env, end_index=1 << 30, extra=None):
             continue
         else:
             # any other callee that receives the tail mutably
-            if any(find_all(a, lambda x: x[0] == "ref" and len(x) == 3 and x[1] is True and find_all(x[2], lambda y: y == TAIL)) for a in args):
+            if any(_mut_ref_to(a, TAIL) for a in c[2]):
                 ops.append(("?", "%s(%s)" % (c[1], ", ".join(sym.fmt(a) for a in args))[:200]))
     for (bb, pl, v) in p.stores:
         if not (start_index <= order.get(bb, -1) < end_index):
@@ -645,7 +654,7 @@ def tail_windows(ctx, F):
             if order.get(bb, -1) >= first and find_all(n(pl), lambda x: x == TAIL):
                 lb.append("store to %s inside the window loop" % sym.fmt(n(pl)))
         for c in p.calls:
-            if order.get(c[0], -1) >= first and any(find_all(n(a), lambda x: x[0] == "ref" and len(x) == 3 and x[1] is True and find_all(x[2], lambda y: y == TAIL)) for a in c[2]):
+            if order.get(c[0], -1) >= first and any(_mut_ref_to(a, TAIL) for a in c[2]):
                 lb.append("%s receives &mut tail inside the window loop" % c[1])
     ctx.ob(r, ("Generator::update", "loop-body-leaves-tail-alone"), not lb and bool(loops), "; ".join(sorted(set(lb))[:3]) or "no loop paths", cfg=F.key, where=b.where())
 
@@ -751,6 +760,53 @@ def prologue_windows(ctx, F, r="R-03.6"):
     ctx.ob(r, ("Generator::update", "prologue-windows"), not bad and not miss and n_checked > 0,
            "; ".join(sorted(set(bad))[:3]) or "cases with no verified path: %s" % miss[:6], cfg=F.key, where=b.where(),
            detail={"cases": len(want), "path_case_pairs_verified": sum(verified.values())})
+
+
+def step_state(ctx, F):
+    """update(a ++ b) == update(a); update(b) needs the loop body to be a step function of (carried state, byte): the checksum and
+    the buckets may only be advanced per byte by their own step functions (whose recurrences read nothing but the carried
+    state and their operands), never re-seeded or bulk-updated per call."""
+    from . import c01
+    c01.window(ctx, F, "R-03.8")
+    c01.checksum_rec(ctx, F, "R-03.9")
+    r = "R-03.10"
+    ctx.rule(r, "who may mutate the carried state inside update(): `checksum` only through InnerChecksum::update, `buckets` only through increment, both inside the window loop; `len`/`tail_len`/`tail` by direct stores of update() itself", "N")
+    gf = common.generator_fields(F)
+    bs = F.method("update", "generate::inner::Generator<")
+    ctx.instance(r)
+    if len(bs) != 1 or not gf:
+        ctx.missing(r, "inner Generator::update", cfg=F.key)
+        return
+    b = bs[0]
+    S = sym.Sym(b)
+    paths = S.paths()
+    hdrs = {p.blocks[-1] for p in paths if p.end == "loop"}
+    allp = list(paths)
+    for h in hdrs:
+        try:
+            allp += S.paths(entry=h)
+        except sym.PathLimit:
+            pass
+    CK = ("field", ("deref", P(1)), gf["checksum"])
+    BK = ("field", ("deref", P(1)), gf["buckets"])
+    allowed = {"checksum": ("InnerChecksum::update",), "buckets": ("::increment",)}
+    bad = set()
+    seen = {"checksum": 0, "buckets": 0}
+    for p in allp:
+        for (bb, path, args, c) in p.calls:
+            for nm, fld in (("checksum", CK), ("buckets", BK)):
+                for a in args:
+                    if _mut_ref_to(a, fld):
+                        if path.endswith(allowed[nm]):
+                            seen[nm] += 1
+                        else:
+                            bad.add("%s receives &mut self.%s" % (path.rsplit("::", 2)[-2] + "::" + path.rsplit("::", 1)[-1] if path.count("::") > 1 else path, nm))
+        for (bb, pl, v) in p.stores:
+            npl = n(pl)
+            for nm, fld in (("checksum", CK), ("buckets", BK)):
+                if find_all(npl, lambda y: y == fld):
+                    bad.add("direct store into self.%s (%s)" % (nm, sym.fmt(npl)[:60]))
+    ctx.ob(r, ("Generator::update", "state-mutators"), not bad and all(seen.values()), "; ".join(sorted(bad)[:3]) or "step calls seen %s" % seen, cfg=F.key, where=b.where())
 
 
 def wrappers(ctx, F):
